@@ -341,6 +341,9 @@ func boolConst(b bool) *ssa.Const {
 	return ssa.NewConst(constant.MakeBool(b), types.Typ[types.Bool])
 }
 
+// NegateOp: the comparison that holds when op does not.
+func NegateOp(op token.Token) token.Token { return negate(op) }
+
 func negate(op token.Token) token.Token {
 	switch op {
 	case token.EQL:
